@@ -75,7 +75,8 @@ P = {
          "classifies every abnormal episode end and reports anything not matching a listed finding. What every internal transition of a step does "
          "is a theorem over whole runs of every instance: every micro-log entry satisfies the complete event vector of the monitors against one "
          "witnessed pre-state, the dispatch clause up to its (refuted) readiness conjunct "
-         "(C05_every_micro_event_satisfies_the_monitor_vector_every_instance, SMP/AllEvents.v). Termination itself is not a "
+         "(C05_every_micro_event_satisfies_the_monitor_vector_every_instance, SMP/AllEvents.v), and every micro-state satisfies every state clause the "
+         "monitors print (C05_every_micro_state_satisfies_every_state_clause_every_instance, SMP/AllClauses.v). Termination itself is not a "
          "theorem (fuel-bounded model). " + TIE),
  "C06": ("Classic", "Theorems (Props/C06.v; Classic/*): for classic instances (teleporting AGVs, zero travel) the Taillard lower bound "
          "computed by the model of calculate_lower_bound is below the makespan of EVERY feasible schedule (C06_lb_sound, via the packing "
